@@ -59,6 +59,15 @@ fn fix(mut c: Cfg) -> Cfg {
     c
 }
 
+fn fix_large(c: Cfg) -> Cfg {
+    let mut c = fix(c);
+    if !c.classes() {
+        c.digits = true;
+        c.non_words = true;
+    }
+    c
+}
+
 fn class_mask_cfg(mask: u32, base: &Cfg) -> Cfg {
     let mut c = base.clone();
     c.digits = mask & 1 != 0;
@@ -93,7 +102,7 @@ fn run(ctx: &mut Ctx) {
     }
 
     // generated: every one of the 63 class subsets equally likely
-    let total = ctx.tier.pick(40_000, 700_000);
+    let total = ctx.tier.pick(30_000, 700_000);
     let max_ops = ctx.tier.pick(5, 10);
     let strat = move || {
         (case_strategy(POOLS3, true, W_DEFAULT, max_ops, 5, fix), 1u32..64)
@@ -104,6 +113,12 @@ fn run(ctx: &mut Ctx) {
             .boxed()
     };
     ctx.generated("gen", &strat, total, &|s, c, st| {
+        count_pool(c, st);
+        case_fn(s, c, st)
+    });
+    let total_large = ctx.tier.pick(5000, 100000);
+    let strat_large = move || case_strategy_large(POOLS3, W_DEFAULT, fix_large);
+    ctx.generated("gen-large", &strat_large, total_large, &|s, c, st| {
         count_pool(c, st);
         case_fn(s, c, st)
     });
